@@ -50,6 +50,13 @@ static void same(void* p, SV const& s)
     if (sa.i == sb.i) vf_witness("same alternative"); if (sa.i < sb.i) vf_witness("lower/higher alternative"); if (sa.i > sb.i) vf_witness("higher/lower alternative"); \
     if (sa.i == NALT - 1 && sb.i == NALT - 1) vf_witness("both last alternative");
 
+// lighter comparison used inside histories: active index and held value through one accessor each
+static void same_light(void* p, SV const& s)
+{
+    u64 idx = k_v_index(p);
+    vf_assert(idx == s.index(), "history: index() == std");
+    if (idx == s.index()) { PV* out = (PV*)vf_alloc(4); *out = 0; vf_assert(k_v_get_if_index(p, idx, out) && *out == std_payload(s), "history: *get_if<index()> == std"); }
+}
 // ---- construction
 Q q_ctor_default()
 {
@@ -197,32 +204,43 @@ Q q_conv_cstr()
 }
 #endif
 // ---- histories: symbolic operations on two objects starting from default-constructed ones; full comparison after every step
-static void hist(unsigned steps)
+template <unsigned MASK> static void hist(unsigned steps)
 {
     void* a = vf_sym_bytes(k_v_sizeof()); void* b = vf_sym_bytes(k_v_sizeof()); k_v_default(a); k_v_default(b); SV xa, xb;
     unsigned moved = 0;
     for (unsigned i = 0; i < steps; i++) {
         uint8_t op = vf_nd_u8(); St t = nd_state(); vf_assume(op < 10);
+        if (!((MASK >> op) & 1U)) { vf_assume(false); }
         switch (op) {
-        case 0: k_v_emplace_index(a, t.i, t.v); with_alt(t.i, [&](auto c) { xa.template emplace<c.value>(mk<alt_t<c.value>>(t.v)); }); break;
-        case 1: k_v_emplace_type(b, t.i, t.v); with_alt(t.i, [&](auto c) { xb.template emplace<alt_t<c.value>>(mk<alt_t<c.value>>(t.v)); }); break;
-        case 2: k_v_asg_conv_r(a, t.i, t.v); with_alt(t.i, [&](auto c) { xa = mk<alt_t<c.value>>(t.v); }); break;
-        case 3: k_v_asg_conv_l(b, t.i, t.v); with_alt(t.i, [&](auto c) { alt_t<c.value> const u = mk<alt_t<c.value>>(t.v); xb = u; }); break;
-        case 4: k_v_asg_copy(a, b); xa = xb; break;
-        case 5: k_v_asg_copy(b, a); xb = xa; break;
-        case 6: k_v_asg_move(a, b); xa = std::move(xb); break;
-        case 7: k_v_swap(a, b); std::swap(xa, xb); break;
-        case 8: k_v_visit_mut(a, t.v); std::visit([&](auto& x) { x = mk<std::remove_cvref_t<decltype(x)>>(t.v); }, xa); break;
-        default: k_v_asg_move(b, a); xb = std::move(xa); break;
+        case 0: if (!(MASK & 1U)) break; k_v_emplace_index(a, t.i, t.v); with_alt(t.i, [&](auto c) { xa.template emplace<c.value>(mk<alt_t<c.value>>(t.v)); }); break;
+        case 1: if (!(MASK & 2U)) break; k_v_emplace_type(b, t.i, t.v); with_alt(t.i, [&](auto c) { xb.template emplace<alt_t<c.value>>(mk<alt_t<c.value>>(t.v)); }); break;
+        case 2: if (!(MASK & 4U)) break; k_v_asg_conv_r(a, t.i, t.v); with_alt(t.i, [&](auto c) { xa = mk<alt_t<c.value>>(t.v); }); break;
+        case 3: if (!(MASK & 8U)) break; k_v_asg_conv_l(b, t.i, t.v); with_alt(t.i, [&](auto c) { alt_t<c.value> const u = mk<alt_t<c.value>>(t.v); xb = u; }); break;
+        case 4: if (!(MASK & 16U)) break; k_v_asg_copy(a, b); xa = xb; break;
+        case 5: if (!(MASK & 32U)) break; k_v_asg_copy(b, a); xb = xa; break;
+        case 6: if (!(MASK & 64U)) break; k_v_asg_move(a, b); xa = std::move(xb); break;
+        case 7: if (!(MASK & 128U)) break; k_v_swap(a, b); std::swap(xa, xb); break;
+        case 8: if (!(MASK & 256U)) break; k_v_visit_mut(a, t.v); std::visit([&](auto& x) { x = mk<std::remove_cvref_t<decltype(x)>>(t.v); }, xa); break;
+        default: if (!(MASK & 512U)) break; k_v_asg_move(b, a); xb = std::move(xa); break;
         }
-        same(a, xa); same(b, xb);
-        vf_assert(k_v_rel(a, b) == REL6(xa, xb), "history: relational operators == std");
+        same_light(a, xa); same_light(b, xb);
         if (NALT > 2 ? (xa.index() != 0 && xb.index() != 0 && xa.index() != xb.index()) : (xa.index() != xb.index())) moved++;
     }
     if (steps >= 2 && moved + 1 >= steps) vf_witness("history with two different (non-default, if there are more than two) alternatives from the second step on");
+    same(a, xa); same(b, xb);
+    vf_assert(k_v_rel(a, b) == REL6(xa, xb), "history: relational operators == std");
     k_v_dtor(a); k_v_dtor(b);
 }
-Q q_hist2() { hist(2); }
-Q q_hist3() { hist(3); }
-Q q_hist4() { hist(4); }
-Q q_hist5() { hist(5); }
+// operation sets: ALL = every kind; CORE = emplace on either object, copy/move assignment a = b, swap; CONV = converting assignment on either object, b = a (copy / move), visit-mutate
+#define OPS_ALL 0x3ffU
+#define OPS_CORE (1U | 2U | 16U | 64U | 128U)
+#define OPS_CONV (4U | 8U | 32U | 256U | 512U | 1U)
+Q q_hist2() { hist<OPS_ALL>(2); }
+Q q_hist3() { hist<OPS_ALL>(3); }
+Q q_hist4() { hist<OPS_ALL>(4); }
+Q q_hist3_core() { hist<OPS_CORE>(3); }
+Q q_hist3_conv() { hist<OPS_CONV>(3); }
+Q q_hist4_core() { hist<OPS_CORE>(4); }
+Q q_hist4_conv() { hist<OPS_CONV>(4); }
+Q q_hist5_core() { hist<OPS_CORE>(5); }
+Q q_hist5_conv() { hist<OPS_CONV>(5); }
